@@ -2,6 +2,14 @@
 from seqdiff import run_seq
 
 
+def audit(rep, prop_file, theorems, build):
+    """proof audit for a property whose theorems are closed; records a violation when they stop checking"""
+    from common import proof_audit
+    obl, dis, problems = proof_audit(prop_file, theorems, build["coq"])
+    rep._audit = (obl, dis, problems, prop_file)
+    return problems
+
+
 def coverage(rep, res, progs, rule, extra=None):
     st = res["stats"]
     rep.coverage = dict(programs=st["programs"], disagreements_checked=st["disagreements_checked"],
@@ -11,6 +19,16 @@ def coverage(rep, res, progs, rule, extra=None):
                         correspondence_failures=st.get("correspondence_failures", 0))
     if extra:
         rep.coverage.update(extra)
+    if getattr(rep, "_audit", None):
+        from common import TRUSTED_BASE
+        obl, dis, problems, pf = rep._audit
+        if problems and not rep.violations:
+            rep.violation("# %s: proof obligations no longer check\n%s\n" % (rep.prop, "\n".join(problems)),
+                          suffix="no-failing-input-found")
+        rep.coverage.update(obligations=obl, discharged=dis if not problems else min(dis, obl - 1),
+                            checker_cmd="cd coq && make %s (coqc 8.16.1) + Print Assumptions audit" % pf.replace(".v", ".vo"),
+                            trusted_base=TRUSTED_BASE, traces_validated_against_impl=st["programs"],
+                            proof_problems=problems)
 
 
 def replay_file(rep, path):
